@@ -37,6 +37,8 @@ import (
 	"github.com/hydraide/hydraide/app/core/hydra/swamp/treasure/msgpackpatch"
 	"github.com/hydraide/hydraide/app/core/settings"
 	"github.com/hydraide/hydraide/app/name"
+	hydrapb "github.com/hydraide/hydraide/sdk/go/hydraidego/v3/hydraidepbgo"
+	"google.golang.org/protobuf/types/known/timestamppb"
 )
 
 func init() { Register("C13", Domain{Gen: c13Gen, Run: c13Run}) }
@@ -294,6 +296,11 @@ func c13Tree(rng *rand.Rand, depth int, budget *int) *c13Node {
 				w = 1 + rng.Intn(3)
 			}
 			n.khdr = append(n.khdr, w)
+		}
+		if n.kind == 2 && len(n.kids) > 0 && rng.Intn(5) == 0 {
+			n.kids = append(n.kids, n.kids[rng.Intn(len(n.kids))]) // an element twice (REMOVE_VAL: the first match only)
+			*budget--
+			continue
 		}
 		n.kids = append(n.kids, c13Tree(rng, depth-1, budget))
 	}
@@ -756,6 +763,36 @@ func c13Gen(rng *rand.Rand, tier string, w *bufio.Writer) {
 		"ap 81a1749281a16101a161 - rmval:74:de0001a16101",                      // container value with a non-minimal header
 		"ap 81a17490 - app:745b5d:dc000101 rmval:74:9101",                      // spliced non-minimal array, removed by its canonical form
 		"ap 81a17490 - app:745b5d:9101 rmval:74:9101",
+		"ap 81a17493010201 - rmval:74:01",                                       // the FIRST match only: [1,2,1] → [2,1]
+		"ap 81a174949101029101a161 - rmval:74:9101 rmat:745b325d:",              // … containers too; the second [1] is still there at t[1]
+		"pf b:c70081a17493010201 0 - - - rmval:74:01",
+		// the wire: every operator and op kind by its proto number, through both RPCs
+		"gp b:c70081a17805 0 - - eq:78:05 set:79:01", "gp b:c70081a17805 0 - - ne:78:05 set:79:01", "gp b:c70081a17805 0 - - ne:78:04 set:79:01",
+		"gp b:c70081a17805 0 - - gt:78:05 set:79:01", "gp b:c70081a17805 0 - - ge:78:05 set:79:01", "gp b:c70081a17805 0 - - lt:78:05 set:79:01",
+		"gp b:c70081a17805 0 - - le:78:05 set:79:01", "gp b:c70081a17805 0 - - le:78:04 set:79:01", "gp b:c70081a17805 0 - - ex:78: set:79:01",
+		"gp b:c70081a17805 0 - - nex:78: set:79:01", "gp b:c70081a17805 0 - - unk:78:05 set:79:01",
+		"gx b:c70081a17805@1500000000000000000 0 - - eq:78:05 set:79:01", "gx b:c70081a17805@1500000000000000000 0 - - ne:78:05 set:79:01",
+		"gx b:c70081a17805@1500000000000000000 0 - - ne:78:04 set:79:01", "gx b:c70081a17805@1500000000000000000 0 - - gt:78:04 set:79:01",
+		"gx b:c70081a17805@1500000000000000000 0 - - ge:78:06 set:79:01", "gx b:c70081a17805@1500000000000000000 0 - - lt:78:06 set:79:01",
+		"gx b:c70081a17805@1500000000000000000 0 - - le:78:04 set:79:01", "gx b:c70081a17805@1500000000000000000 0 - - ex:79: set:79:01",
+		"gx b:c70081a17805@1500000000000000000 0 - - nex:79: set:79:01",
+		"gp b:c70082a17805a174920102 0 - - - del:78:", "gp b:c70081a17805 0 - - - inc:78:01", "gp b:c70081a1749101 0 - - - app:745b5d:02",
+		"gp b:c70081a1749101 0 - - - pre:745b5d:02", "gp b:c70081a174920102 0 - - - rmat:745b305d:", "gp b:c70081a174920102 0 - - - rmval:74:02",
+		"gp b:c70081a16d80 0 - - - merge:6d:81a16101", "gp b:c70081a17805 0 - - - unk:78:01",
+		"gx b:c70081a17805@1500000000000000000 0 - - - inc:78:01", "gx b:c70081a174920102@1500000000000000000 0 - - - rmval:74:02",
+		"gx b:c70081a16d80@1500000000000000000 0 - - - merge:6d:81a16101",
+		// numbers no operator has: 8, 99, and the ones that differ from an operator by a multiple of 256
+		"gp b:c70081a17805 0 - - w8:78:05 set:79:01", "gp b:c70081a17805 0 - - w257:78:05 set:79:01", "gp b:c70081a17805 0 - - w-255:78:05 set:79:01",
+		"gp b:c70081a17805 0 - - - w256:79:01", "gp b:c70081a17805 0 - - - w-255:78:", "gx b:c70081a17805@1500000000000000000 0 - - w257:78:04 w256:79:01",
+		// PatchExpiredTreasures: meta-only, failed condition / op keep the treasure and its ExpiredAt, other content types
+		"gx b:c70081a17805@1500000000000000000 0 - exp=1900000000000000000,ua,ub=626f62 - set:79:01",
+		"gx b:c70081a17805@1500000000000000000 0 - exp=1900000000000000000 eq:78:04 set:79:01",
+		"gx b:c70081a17805@1500000000000000000 0 - clr,ca,cb=616c - inc:78:a161",
+		"gx b:81a17805@1500000000000000000 0 - - - set:79:01", "gx other@1500000000000000000 0 - - - set:79:01",
+		// a seed that is not a map: documented TYPE_MISMATCH, with and without ops
+		"pf absent 1 01 - -", "pf absent 1 9101 - -", "pf absent 1 a161 ua,ca -", "gp absent 1 01 - -", "pf absent 1 01 - nex:78:",
+		"pf absent 1 01 - - set:78:01", "pf absent 1 80 - -", "pf absent 1 - - -", "pf b:c70081a17801 1 01 - -", "pf b:c70081a17801 0 01 - -",
+		"gp absent 1 81a17805 ua,ca,cb=616c - set:79:01", "gp absent 0 - - - set:79:01", "gp other 0 - - - set:79:01",
 		"ap 80 - set:78:81a16101 set:782e61:02",                                // into a value SET earlier in the same patch
 		"ap 80 - app:745b5d:9101 app:745b305d5b5d:02",                          // into an array APPENDed earlier
 		"ap 80 - merge:6d:81a16181a16201 inc:6d2e612e62:01",                    // into a MERGEd field value
@@ -898,9 +935,61 @@ func c13Gen(rng *rand.Rand, tier string, w *bufio.Writer) {
 			if strings.HasPrefix(stored, "b:") && rng.Intn(3) == 0 {
 				stored += fmt.Sprintf("@%d", 1700000000000000000+rng.Int63n(1e18))
 			}
-			fmt.Fprintf(w, "pf %s %d %s %s %s %s\n", stored, rng.Intn(2), seed, meta, c13Cond(rng, addrs), c13Op(rng, addrs))
+			create, cnd, op := rng.Intn(2), c13Cond(rng, addrs), c13Op(rng, addrs)
+			if rng.Intn(5) == 0 {
+				op = "" // no op at all: the body (or the seed) is stored as it is
+			}
+			fmt.Fprintf(w, "%s\n", strings.TrimRight(fmt.Sprintf("pf %s %d %s %s %s %s", stored, create, seed, meta, cnd, op), " "))
+			// the same call over the wire: Gateway.PatchTreasures with the proto enums, and — for a stored treasure —
+			// Gateway.PatchExpiredTreasures on an expired copy of it (the second copy of the per-key flow)
+			wcnd, wop := c13WireTok(rng, cnd, c13CondDoc), c13WireTok(rng, op, c13OpDoc)
+			fmt.Fprintf(w, "%s\n", strings.TrimRight(fmt.Sprintf("gp %s %d %s %s %s %s", stored, create, seed, meta, wcnd, wop), " "))
+			if stored != "absent" && (op != "" || meta != "-") {
+				base := stored
+				if i := strings.IndexByte(base, '@'); i >= 0 {
+					base = base[:i]
+				}
+				wcnd, wop = c13WireTok(rng, cnd, c13CondDoc), c13WireTok(rng, op, c13OpDoc)
+				fmt.Fprintf(w, "%s\n", strings.TrimRight(fmt.Sprintf("gx %s@%d 0 - %s %s %s", base, 1000000000000000000+rng.Int63n(7e17), meta, wcnd, wop), " "))
+			}
 		}
 	}
+}
+
+// hydraide.proto: PatchOp.Kind and PatchCondition.Op by number
+var c13OpDoc = []string{"set", "del", "inc", "app", "pre", "rmat", "rmval", "merge"}
+var c13CondDoc = []string{"eq", "ne", "gt", "ge", "lt", "le", "ex", "nex"}
+
+// c13WireTok: sometimes spell the operator of `kind:path:value` as a bare wire number — the documented
+// one, one that differs from it by a multiple of 256, or one no operator has
+func c13WireTok(rng *rand.Rand, tok string, doc []string) string {
+	if tok == "-" || rng.Intn(4) != 0 {
+		return tok
+	}
+	i := strings.IndexByte(tok, ':')
+	if i < 0 {
+		return tok
+	}
+	n := -1
+	for k, d := range doc {
+		if d == tok[:i] {
+			n = k
+		}
+	}
+	if n < 0 {
+		n = rng.Intn(len(doc))
+	}
+	switch rng.Intn(6) {
+	case 0:
+		n += 256
+	case 1:
+		n -= 256
+	case 2:
+		n += 256 * (2 + rng.Intn(1000))
+	case 3:
+		n = []int{8, 9, 99, 255, 128}[rng.Intn(5)]
+	}
+	return fmt.Sprintf("w%d%s", n, tok[i:])
 }
 
 // c13Special: is the 4/8-byte big-endian float pattern NaN or ±Inf (exponent all ones)?
@@ -1162,8 +1251,12 @@ func c13Dump(s *msgpackpatch.Skeleton, blob []byte, sb *strings.Builder) {
 type c13PF struct {
 	rig *Rig
 	sw  swamp.Swamp
+	xw  swamp.Swamp // the swamp of the `gx` lines (PatchExpiredTreasures)
 	n   int
 }
+
+var c13FieldsName = name.New().Sanctuary("c13").Realm("patch").Swamp("fields")
+var c13ExpiredName = name.New().Sanctuary("c13").Realm("patch").Swamp("expired")
 
 func (p *c13PF) swamp() (swamp.Swamp, error) {
 	if p.sw != nil {
@@ -1176,14 +1269,106 @@ func (p *c13PF) swamp() (swamp.Swamp, error) {
 	p.rig = rig
 	rig.Settings.RegisterPattern(name.New().Sanctuary("c13").Realm("*").Swamp("*"), true, 3600,
 		&settings.FileSystemSettings{WriteIntervalSec: 1, MaxFileSizeByte: 8192})
-	nm := name.New().Sanctuary("c13").Realm("patch").Swamp("fields")
-	sw, err := rig.Zeus.GetHydra().SummonSwamp(context.Background(), 1, nm)
+	sw, err := rig.Zeus.GetHydra().SummonSwamp(context.Background(), 1, c13FieldsName)
 	if err != nil {
 		return nil, err
 	}
 	sw.BeginVigil()
 	p.sw = sw
+	xw, err := rig.Zeus.GetHydra().SummonSwamp(context.Background(), 1, c13ExpiredName)
+	if err != nil {
+		return nil, err
+	}
+	xw.BeginVigil()
+	// a treasure without ExpiredAt keeps the swamp alive when a line's treasure is deleted again
+	t := xw.CreateTreasure("keep")
+	g := t.StartTreasureGuard(true)
+	t.SetContentByteArray(g, []byte{0xc7, 0x00, 0x80})
+	t.Save(g)
+	t.ReleaseTreasureGuard(g)
+	p.xw = xw
 	return sw, nil
+}
+
+// the wire: op / operator tokens → the proto enum constants of hydraide.pb.go (`wN`: the bare number N)
+func c13WireKind(tok string) (hydrapb.PatchOp_Kind, bool) {
+	kinds := map[string]hydrapb.PatchOp_Kind{"set": hydrapb.PatchOp_SET, "del": hydrapb.PatchOp_DELETE, "inc": hydrapb.PatchOp_INC,
+		"app": hydrapb.PatchOp_APPEND, "pre": hydrapb.PatchOp_PREPEND, "rmat": hydrapb.PatchOp_REMOVE_AT,
+		"rmval": hydrapb.PatchOp_REMOVE_VAL, "merge": hydrapb.PatchOp_MERGE, "unk": hydrapb.PatchOp_Kind(99)}
+	if k, ok := kinds[tok]; ok {
+		return k, true
+	}
+	if strings.HasPrefix(tok, "w") {
+		n, err := strconv.ParseInt(tok[1:], 10, 32)
+		return hydrapb.PatchOp_Kind(n), err == nil
+	}
+	return 0, false
+}
+
+func c13WireCondOp(tok string) (hydrapb.PatchCondition_Op, bool) {
+	ops := map[string]hydrapb.PatchCondition_Op{"eq": hydrapb.PatchCondition_EQUAL, "ne": hydrapb.PatchCondition_NOT_EQUAL,
+		"gt": hydrapb.PatchCondition_GREATER_THAN, "ge": hydrapb.PatchCondition_GREATER_THAN_OR_EQUAL, "lt": hydrapb.PatchCondition_LESS_THAN,
+		"le": hydrapb.PatchCondition_LESS_THAN_OR_EQUAL, "ex": hydrapb.PatchCondition_EXISTS, "nex": hydrapb.PatchCondition_NOT_EXISTS,
+		"unk": hydrapb.PatchCondition_Op(99)}
+	if o, ok := ops[tok]; ok {
+		return o, true
+	}
+	if strings.HasPrefix(tok, "w") {
+		n, err := strconv.ParseInt(tok[1:], 10, 32)
+		return hydrapb.PatchCondition_Op(n), err == nil
+	}
+	return 0, false
+}
+
+func c13WireOps(fs []string) ([]*hydrapb.PatchOp, bool) {
+	var ops []*hydrapb.PatchOp
+	for _, f := range fs {
+		p := strings.Split(f, ":")
+		if len(p) != 3 {
+			return nil, false
+		}
+		k, ok := c13WireKind(p[0])
+		if !ok {
+			return nil, false
+		}
+		ops = append(ops, &hydrapb.PatchOp{Op: k, Path: string(c13Unhex(p[1])), Value: c13Unhex(p[2])})
+	}
+	return ops, true
+}
+
+func c13WireCond(s string) (*hydrapb.PatchCondition, bool) {
+	if s == "-" {
+		return nil, true
+	}
+	p := strings.Split(s, ":")
+	if len(p) != 3 {
+		return nil, false
+	}
+	o, ok := c13WireCondOp(p[0])
+	if !ok {
+		return nil, false
+	}
+	return &hydrapb.PatchCondition{Path: string(c13Unhex(p[1])), Operator: o, Threshold: c13Unhex(p[2])}, true
+}
+
+func c13WireMeta(m *swamp.PatchFieldsMeta, tok string) *hydrapb.PatchMeta {
+	if m == nil {
+		return nil
+	}
+	out := &hydrapb.PatchMeta{SetUpdatedAt: m.SetUpdatedAt, SetCreatedAt: m.SetCreatedAt, ClearExpiredAt: m.ClearExpiredAt}
+	for _, t := range strings.Split(tok, ",") {
+		switch {
+		case strings.HasPrefix(t, "ub="):
+			v := m.SetUpdatedBy
+			out.SetUpdatedBy = &v
+		case strings.HasPrefix(t, "cb="):
+			v := m.SetCreatedBy
+			out.SetCreatedBy = &v
+		case strings.HasPrefix(t, "exp="):
+			out.SetExpiredAt = timestamppb.New(m.SetExpiredAt)
+		}
+	}
+	return out
 }
 
 // pf STORED CREATE SEED META COND OP…
@@ -1198,10 +1383,15 @@ func (p *c13PF) run(f []string) string {
 	if len(f) < 6 {
 		return "bad-op"
 	}
-	ops, ok1 := c13ParseOps(f[6:])
-	cond, ok2 := c13ParseCond(f[5])
-	if !ok1 || !ok2 {
-		return "bad-op"
+	var ops []msgpackpatch.Op
+	var cond *msgpackpatch.Condition
+	if f[0] == "pf" {
+		var ok1, ok2 bool
+		ops, ok1 = c13ParseOps(f[6:])
+		cond, ok2 = c13ParseCond(f[5])
+		if !ok1 || !ok2 {
+			return "bad-op"
+		}
 	}
 	var meta *swamp.PatchFieldsMeta
 	if f[4] != "-" {
@@ -1231,35 +1421,97 @@ func (p *c13PF) run(f []string) string {
 	}
 	p.n++
 	key := fmt.Sprintf("k%d", p.n)
+	verb := f[0]
+	if verb == "gx" {
+		sw = p.xw
+	}
+	spec, exp0 := f[1], int64(0)
+	if i := strings.IndexByte(spec, '@'); i >= 0 {
+		exp0, _ = strconv.ParseInt(spec[i+1:], 10, 64)
+		spec = spec[:i]
+	}
 	switch {
-	case f[1] == "absent":
-	case f[1] == "other":
-		t := sw.CreateTreasure(key)
-		g := t.StartTreasureGuard(true)
-		t.SetContentString(g, "not a byte array")
-		t.Save(g)
-		t.ReleaseTreasureGuard(g)
-	case strings.HasPrefix(f[1], "b:"):
-		spec, exp := f[1][2:], int64(0)
-		if i := strings.IndexByte(spec, '@'); i >= 0 {
-			exp, _ = strconv.ParseInt(spec[i+1:], 10, 64)
-			spec = spec[:i]
+	case spec == "absent":
+		if verb == "gx" {
+			return "bad-op"
 		}
+	case spec == "other" || strings.HasPrefix(spec, "b:"):
 		t := sw.CreateTreasure(key)
 		g := t.StartTreasureGuard(true)
-		t.SetContentByteArray(g, c13Unhex(spec))
-		if exp != 0 {
-			t.SetExpirationTime(g, time.Unix(0, exp))
+		if spec == "other" {
+			t.SetContentString(g, "not a byte array")
+		} else {
+			t.SetContentByteArray(g, c13Unhex(spec[2:]))
+		}
+		if exp0 != 0 {
+			t.SetExpirationTime(g, time.Unix(0, exp0))
 		}
 		t.Save(g)
 		t.ReleaseTreasureGuard(g)
 	default:
 		return "bad-op"
 	}
-	res, err := sw.PatchFields(key, ops, cond, swamp.PatchFieldsOptions{CreateIfNotExist: f[2] == "1",
-		InitialMsgpackOnCreate: c13Unhex(f[3]), Meta: meta})
-	if err != nil {
-		return "error " + err.Error()
+	status, echo := 0, "-"
+	switch verb {
+	case "pf":
+		res, err := sw.PatchFields(key, ops, cond, swamp.PatchFieldsOptions{CreateIfNotExist: f[2] == "1",
+			InitialMsgpackOnCreate: c13Unhex(f[3]), Meta: meta})
+		if err != nil {
+			return "error " + err.Error()
+		}
+		status = int(res.Status)
+		if res.NewMsgpack != nil {
+			echo = c13H(res.NewMsgpack)
+		}
+	case "gp", "gx":
+		wops, ok1 := c13WireOps(f[6:])
+		wcond, ok2 := c13WireCond(f[5])
+		if !ok1 || !ok2 {
+			return "bad-op"
+		}
+		wmeta := c13WireMeta(meta, f[4])
+		ctx, cancel := context.WithTimeout(context.Background(), HxScale(30*time.Second))
+		defer cancel()
+		if verb == "gp" {
+			req := &hydrapb.PatchTreasuresRequest{IslandID: 1, SwampName: c13FieldsName.Get(), CreateIfNotExist: f[2] == "1",
+				Patches: []*hydrapb.TreasurePatch{{Key: key, Ops: wops, Condition: wcond}}}
+			if f[3] != "-" {
+				req.InitialMsgpackOnCreate = c13Unhex(f[3])
+			}
+			if p.n%2 == 0 { // the request-level Meta and the per-patch Meta take turns
+				req.Meta = wmeta
+			} else {
+				req.Patches[0].Meta = wmeta
+				if wmeta != nil {
+					req.Meta = &hydrapb.PatchMeta{SetUpdatedAt: true, ClearExpiredAt: true} // fully replaced by the patch's own
+				}
+			}
+			resp, err := p.rig.GW.PatchTreasures(ctx, req)
+			if err != nil {
+				return "error " + err.Error()
+			}
+			if resp == nil || len(resp.GetResults()) != 1 || resp.GetResults()[0].GetKey() != key {
+				return fmt.Sprintf("results=%d", len(resp.GetResults()))
+			}
+			status = int(resp.GetResults()[0].GetStatus())
+		} else {
+			resp, err := p.rig.GW.PatchExpiredTreasures(ctx, &hydrapb.PatchExpiredTreasuresRequest{IslandID: 1, SwampName: c13ExpiredName.Get(),
+				HowMany: 0, Ops: wops, Meta: wmeta, Condition: wcond})
+			if err != nil {
+				return "error " + err.Error()
+			}
+			if resp == nil || len(resp.GetPatched()) != 1 || resp.GetPatched()[0].GetKey() != key {
+				return fmt.Sprintf("patched=%d", len(resp.GetPatched()))
+			}
+			e := resp.GetPatched()[0]
+			status = int(e.GetStatus())
+			if e.NewMsgpack != nil {
+				echo = c13H(e.GetNewMsgpack())
+			}
+			defer func() { _ = sw.DeleteTreasure(key, false) }()
+		}
+	default:
+		return "bad-op"
 	}
 	stored, wf := "absent", 0
 	exp, mat, cat, mby, cby := int64(0), 0, 0, "-", "-"
@@ -1286,11 +1538,7 @@ func (p *c13PF) run(f []string) string {
 		}
 		mby, cby = c13H([]byte(t.GetModifiedBy())), c13H([]byte(t.GetCreatedBy()))
 	}
-	echo := "-"
-	if res.NewMsgpack != nil {
-		echo = c13H(res.NewMsgpack)
-	}
-	return fmt.Sprintf("st=%d %s wf=%d new=%s exp=%d mat=%d mby=%s cat=%d cby=%s", res.Status, stored, wf, echo, exp, mat, mby, cat, cby)
+	return fmt.Sprintf("st=%d %s wf=%d new=%s exp=%d mat=%d mby=%s cat=%d cby=%s", status, stored, wf, echo, exp, mat, mby, cat, cby)
 }
 
 func c13Run(in *bufio.Scanner, w *bufio.Writer) {
@@ -1298,6 +1546,9 @@ func c13Run(in *bufio.Scanner, w *bufio.Writer) {
 	defer func() {
 		if pf.rig != nil {
 			pf.sw.CeaseVigil()
+			if pf.xw != nil {
+				pf.xw.CeaseVigil()
+			}
 			pf.rig.Stop(true)
 		}
 	}()
@@ -1353,7 +1604,7 @@ func c13Run(in *bufio.Scanner, w *bufio.Writer) {
 					out = c13CanonNaN(out)
 				}
 				fmt.Fprintf(w, "out %s wf=%d\n", c13H(out), wf)
-			case f[0] == "pf" && len(f) >= 6:
+			case (f[0] == "pf" || f[0] == "gp" || f[0] == "gx") && len(f) >= 6:
 				fmt.Fprintln(w, pf.run(f))
 			default:
 				fmt.Fprintln(w, "bad-op")
